@@ -1069,6 +1069,12 @@ example : WF exDiamond exRank := by
 
 example : (exDiamond.entities.map (·.name)).Nodup := by decide
 
+/-- the hypotheses of `C02_flags_derive_full` / `C02_derived_calls_closed_form` hold on the diamond, and the closed form says what
+    the instance shows: `a.x` (derived by `b`) is named, `a.y` (explicitly redeclared by `c`) is not -/
+example : RedeclResolves exDiamond ∧ RedeclNamesOneLine exDiamond ∧
+    derivedIn exDiamond (fuelOf exDiamond) "d" "x" "a" = true ∧ derivedIn exDiamond (fuelOf exDiamond) "d" "y" "a" = false := by
+  decide
+
 /-- the TYPE half of `C02_mirror` is not vacuous: an enumeration, a rename chain of length two over it, a named aggregate of the
     renamed enumeration and a select over an entity and a defined type; `trank` = how far a type is from the end of its chain -/
 def exTypes : Schema :=
